@@ -4,6 +4,7 @@ mod cmd_det;
 mod cmd_native;
 mod native;
 mod cmd_heapops;
+mod cmd_focus;
 mod cmd_stages;
 mod cmd_shrink;
 mod cmd_fun2core;
@@ -115,6 +116,7 @@ fn main() {
         "check" => cmd_check::cmd_check(num(2, 1), num(3, 0) as usize, args.get(5..).unwrap_or(&[]), &mut *out),
         "shrink" => cmd_shrink::cmd_shrink(num(2, 1), num(3, 0) as usize, args.get(5..).unwrap_or(&[]), &mut *out),
         "stages" => cmd_stages::cmd_stages(num(2, 1), num(3, 0) as usize, args.get(5..).unwrap_or(&[]), &mut *out),
+        "focus" => cmd_focus::cmd_focus(num(2, 1), num(3, 0) as usize, args.get(5..).unwrap_or(&[]), &mut *out),
         "fun2core" => cmd_fun2core::cmd_fun2core(num(2, 1), num(3, 0) as usize, args.get(5..).unwrap_or(&[]), &mut *out),
         "subst" => cmd_subst::cmd_subst(num(2, 1), num(3, 0) as usize, &mut *out, args.get(5..).unwrap_or(&[])),
         "rt" => cmd_rt::cmd_rt(num(2, 1), num(3, 100) as usize, &mut *out),
